@@ -41,6 +41,156 @@ def run(ctx, obs):
     correct_1d(ctx, obs)
     resampled_factor_counts(ctx, obs)
     variance_model_axis(ctx, obs)
+    model_axis(ctx, obs)
+
+
+def model_axis(ctx, obs, rule='MODEL-AXIS'):
+    """The evaluations array is (samples, models, [folds ...]).  Every accessor keeps the model axis: for each array derived from
+    `evaluations` the POSITION of the model axis is tracked through the statements (alias, reduction over another axis, row
+    filter, concatenation along another axis); a reduction / quantile / concatenation whose constant axis IS that position mixes
+    the models (violation).  Non-constant axes and untracked operations end the tracking for that name (undecided, silently).
+    Also: an average over the trailing (fold) axis must be NaN-aware."""
+    prog = ctx.prog
+    REDUCE = {'mean', 'nanmean', 'sum', 'nansum', 'quantile', 'nanquantile', 'percentile', 'median', 'nanmedian', 'std', 'nanstd',
+              'var', 'nanvar', 'min', 'max', 'nanmin', 'nanmax'}
+    sites = [RES + 'get_means', RES + 'get_ci', U + 'get_errorbars', U + 'bootstrap_pair_tests', U + 't_tests', U + 't_test_0',
+             U + 't_test_nc', U + 'ranksum_pair_test', U + 'ranksum_value_test']
+    n = 0
+
+    def const_axis(c, pos_index):
+        a = next((k.value for k in c.keywords if k.arg == 'axis'), c.args[pos_index] if len(c.args) > pos_index else None)
+        if a is None:
+            return 'none'
+        if isinstance(a, ast.Constant) and isinstance(a.value, int):
+            return a.value
+        if isinstance(a, ast.UnaryOp) and isinstance(a.op, ast.USub) and isinstance(a.operand, ast.Constant):
+            return -a.operand.value
+        return None
+
+    for q in sites:
+        f = prog.func(q)
+        pos = {}
+
+        def src_pos(e):
+            """position of the model axis in expression e, or None"""
+            if isinstance(e, ast.Name):
+                return pos.get(e.id)
+            if isinstance(e, ast.Attribute) and e.attr == 'evaluations':
+                return 1
+            if isinstance(e, ast.Subscript):
+                b = src_pos(e.value)
+                # row filter x[mask] / x[mask, ...] with a non-tuple index keeps the layout
+                if b is not None and not isinstance(e.slice, (ast.Tuple, ast.Constant, ast.Slice)):
+                    return b
+                return None
+            return None
+
+        if 'evaluations' in f.params:
+            pos['evaluations'] = 1
+
+        def visit_call(c):
+            nonlocal n
+            leaf = _leaf(c.func)
+            if leaf in REDUCE:
+                is_np = isinstance(c.func, ast.Attribute) and isinstance(c.func.value, ast.Name) and c.func.value.id in ('np', 'numpy')
+                operand = (c.args[0] if c.args else None) if is_np else (c.func.value if isinstance(c.func, ast.Attribute) else None)
+                p0 = src_pos(operand) if operand is not None else None
+                if p0 is None:
+                    return None
+                ai = (2 if leaf in ('quantile', 'nanquantile', 'percentile') else 1) if is_np else (1 if leaf in ('quantile',) else 0)
+                ax = const_axis(c, ai)
+                n += 1
+                con = 'the model axis of the evaluations survives every reduction'
+                if ax == 'none':
+                    obs.bad(rule, q, con, f'`{norm(c)[:70]}` reduces over all axes, models included', where(prog, f, c))
+                    return None
+                if ax is None:
+                    return None
+                if ax == p0:
+                    obs.bad(rule, q, con, f'`{norm(c)[:70]}` reduces axis {ax}, which is the model axis of its operand', where(prog, f, c))
+                    return None
+                obs.ok(rule, q, con, f'`{norm(c)[:50]}`', where(prog, f, c))
+                if ax == -1 and leaf in ('mean', 'sum', 'median', 'std', 'var'):
+                    obs.bad('MEANS', q, 'averages over the trailing (fold) axes are NaN-aware', f'`{norm(c)[:70]}` is NaN-blind: folds '
+                            f'without an evaluation are stored as NaN', where(prog, f, c))
+                keep = any(k.arg == 'keepdims' and isinstance(k.value, ast.Constant) and k.value.value for k in c.keywords)
+                if keep:
+                    return p0
+                return p0 - 1 if 0 <= ax < p0 else p0
+            if leaf in ('concatenate', 'stack', 'vstack', 'hstack') and c.args and isinstance(c.args[0], (ast.Tuple, ast.List)):
+                ps = [src_pos(x) for x in c.args[0].elts]
+                known = [x for x in ps if x is not None]
+                if not known:
+                    return None
+                ax = 0 if leaf == 'vstack' else 1 if leaf == 'hstack' else const_axis(c, 1)
+                if leaf == 'concatenate' and ax == 'none':
+                    ax = 0
+                n += 1
+                con = 'rows are appended to the evaluations along the sample axis'
+                if ax is None or leaf == 'stack':
+                    return None
+                if ax == known[0]:
+                    obs.bad(rule, q, con, f'`{norm(c)[:70]}` appends along axis {ax}, the model axis', where(prog, f, c))
+                    return None
+                obs.ok(rule, q, con, '', where(prog, f, c))
+                return known[0]
+            return None
+
+        def walk(stmts):
+            for st in stmts:
+                if isinstance(st, ast.Assign) and len(st.targets) == 1 and isinstance(st.targets[0], ast.Name):
+                    v = st.value
+                    t = st.targets[0].id
+                    if isinstance(v, ast.Call):
+                        r = visit_call(v)
+                        # nested reductions inside the call arguments
+                        for c in ast.walk(v):
+                            if c is not v and isinstance(c, ast.Call):
+                                visit_call(c)
+                        if r is not None:
+                            pos[t] = r
+                        else:
+                            pos.pop(t, None)
+                    else:
+                        for c in ast.walk(v):
+                            if isinstance(c, ast.Call):
+                                visit_call(c)
+                        p0 = src_pos(v)
+                        if p0 is not None:
+                            pos[t] = p0
+                        else:
+                            pos.pop(t, None)
+                elif isinstance(st, (ast.If, ast.For, ast.While, ast.With, ast.Try)):
+                    for e in ([st.test] if isinstance(st, (ast.If, ast.While)) else []):
+                        for c in ast.walk(e):
+                            if isinstance(c, ast.Call):
+                                visit_call(c)
+                    before = dict(pos)
+                    outs = []
+                    for blk in ('body', 'orelse', 'finalbody'):
+                        b = getattr(st, blk, None)
+                        if b:
+                            pos.clear()
+                            pos.update(before)
+                            # a loop body is walked twice so that loop-carried positions settle
+                            walk(b)
+                            if isinstance(st, (ast.For, ast.While)):
+                                walk(b)
+                            outs.append(dict(pos))
+                    if not getattr(st, 'orelse', None) or isinstance(st, (ast.For, ast.While)):
+                        outs.append(before)
+                    pos.clear()
+                    for k in set().union(*[set(o) for o in outs]) if outs else ():
+                        vals = {o.get(k) for o in outs}
+                        if len(vals) == 1 and None not in vals:
+                            pos[k] = vals.pop()
+                else:
+                    for c in ast.walk(st):
+                        if isinstance(c, ast.Call):
+                            visit_call(c)
+        walk(f.node.body)
+    if n < 10:
+        obs.unk(rule, RES + 'get_means', 'reductions over evaluation arrays', f'only {n} recognised')
 
 
 def _arms(f, var='test_type'):
@@ -403,10 +553,57 @@ def means(ctx, obs, rule='MEANS'):
             if v == -1:
                 obs.check(_leaf(c.func) == 'nanmean', rule, q, 'averages over trailing axes are NaN-aware',
                           f'`{norm(c)}`', '', where(prog, f, c))
-    masks = [n for n in ast.walk(f.node) if isinstance(n, ast.Subscript) and any(isinstance(x, ast.Call) and _leaf(x.func) == 'isnan'
-                                                                                 for x in ast.walk(n.slice))]
-    obs.check(bool(masks), rule, q, 'NaN-marked resamples are dropped before averaging over resamples',
-              'no isnan mask on the resample axis', '', where(prog, f, f.node))
+    # resamples marked NaN (first fold of a model NaN) are dropped before the plain average over resamples.  Dataflow inside the
+    # function: mask names (from isnan / isfinite), filtered names (x[mask]); a plain mean over axis 0 outside the arms for
+    # 'fixed' / 'crossvalidation' must act on a filtered array (or be a nanmean)
+    def has_nan_test(e, mask_names):
+        return any((isinstance(x, ast.Call) and _leaf(x.func) in ('isnan', 'isfinite')) or (isinstance(x, ast.Name) and x.id in mask_names)
+                   for x in ast.walk(e))
+    mask_names, filtered = set(), set()
+    changed = True
+    while changed:
+        changed = False
+        for n in ast.walk(f.node):
+            if isinstance(n, ast.Assign) and isinstance(n.targets[0], ast.Name):
+                t = n.targets[0].id
+                if isinstance(n.value, ast.Subscript) and has_nan_test(n.value.slice, mask_names):
+                    if t not in filtered:
+                        filtered.add(t)
+                        changed = True
+                elif not isinstance(n.value, ast.Subscript) and has_nan_test(n.value, mask_names) and t not in mask_names \
+                        and not any(isinstance(x, ast.Call) and _leaf(x.func) in ('mean', 'nanmean') for x in ast.walk(n.value)):
+                    mask_names.add(t)
+                    changed = True
+    plain_arms = set()
+    for n in ast.walk(f.node):
+        if isinstance(n, ast.If) and any(isinstance(x, ast.Constant) and x.value in ('fixed', 'crossvalidation') for x in ast.walk(n.test)):
+            for b in n.body:
+                plain_arms |= {id(x) for x in ast.walk(b)}
+    con = 'NaN-marked resamples are dropped before averaging over resamples'
+    decided = False
+    for c in ast.walk(f.node):
+        if not (isinstance(c, ast.Call) and _leaf(c.func) == 'mean') or id(c) in plain_arms:
+            continue
+        is_np = isinstance(c.func, ast.Attribute) and isinstance(c.func.value, ast.Name) and c.func.value.id in ('np', 'numpy')
+        operand = (c.args[0] if c.args else None) if is_np else (c.func.value if isinstance(c.func, ast.Attribute) else None)
+        ax = next((k.value for k in c.keywords if k.arg == 'axis'), (c.args[1] if is_np and len(c.args) > 1 else (c.args[0] if not is_np and c.args else None)))
+        if not (isinstance(ax, ast.Constant) and ax.value == 0) or operand is None:
+            continue
+        decided = True
+        if (isinstance(operand, ast.Name) and operand.id in filtered) or \
+                (isinstance(operand, ast.Subscript) and has_nan_test(operand.slice, mask_names)):
+            obs.ok(rule, q, con, f'`{norm(c)[:50]}` averages a filtered array', where(prog, f, c))
+        elif isinstance(operand, ast.Name):
+            obs.bad(rule, q, con, f'`{norm(c)[:60]}` averages `{operand.id}`, which was not filtered by a NaN mask: resamples without a '
+                    f'valid evaluation enter the mean as NaN', where(prog, f, c))
+        else:
+            obs.unk(rule, q, con, f'`{norm(c)[:60]}`', where(prog, f, c))
+    if not decided:
+        nan_aware = any(isinstance(c, ast.Call) and _leaf(c.func) == 'nanmean' for c in ast.walk(f.node) if id(c) not in plain_arms)
+        if nan_aware:
+            obs.ok(rule, q, con, 'resamples are averaged with nanmean', where(prog, f, f.node))
+        else:
+            obs.unk(rule, q, con, 'no average over resamples recognised', where(prog, f, f.node))
 
 
 def correct_1d(ctx, obs, rule='UNIFORM'):
